@@ -80,7 +80,7 @@ view == <<up, pend, gone, ctr, seen, tbl, net, cfg, nann, proc, fwd, sent, viol,
 
 (* ---- helpers ------------------------------------------------------------*)
 SeqToSet(s) == {s[i] : i \in 1..Len(s)}
-NoDup(s) == \A i, j \in 1..Len(s) : i # j => s[i] # s[j]
+NoDup(s) == Cardinality(SeqToSet(s)) = Len(s)
 Nbr(n) == {q \in Agent \ {n} : {n, q} \in up}
 Cap == CntMod - 1
 
@@ -139,7 +139,7 @@ ChunkMsgs(n, q, base, chunks, an) ==
 
 AnnounceWith(o, chunks) ==
   /\ o \in Announcers /\ bud.ann[o] < MaxAnn
-  /\ IsChunking(chunks, Locals(o) \cup {"p"})
+  /\ IsChunking(chunks, Locals(o) \cup {"p"}) = TRUE     \* ("= TRUE": evaluated as a plain expression by TLC)
   /\ LET k == Len(chunks)
      IN /\ net' = BagAdd(net, UNION {ChunkMsgs(o, q, ctr[o], chunks, nann[o] + 1) : q \in Nbr(o)})
         /\ ctr' = [ctr EXCEPT ![o] = @ + k]
@@ -275,7 +275,7 @@ PathSrc(E) == LET i == CHOOSE i \in 1..4 : (\E e \in E : KindOf(e.r) = KindPri[i
 ReplayRs(E) == {[r |-> e.r, m |-> e.m] : e \in {x \in E : x.r # "p" \/ \A d \in E : d.r = "p" => x.m <= d.m}}
 ReplayWith(n, p, own) ==
   /\ <<n, p>> \in pend /\ "DevReplayUsesOwnSequence" \notin Dev
-  /\ IsChunking(own, Locals(n))
+  /\ IsChunking(own, Locals(n)) = TRUE
   /\ LET E == {e \in tbl[n] : e.nh # p}
          G == {<<e.o, e.seq>> : e \in E}
          Ents(g) == {e \in E : e.o = g[1] /\ e.seq = g[2]}
